@@ -701,7 +701,7 @@ type c14Case struct {
 	Kind    string   `json:"kind"`  // kind of the (first) sequence: list | vector | string | nil
 	Keys    []string `json:"keys"`  // keywords present (sorted), decorated with the boundary class of the value
 	Class   string   `json:"class"` // input class that replaces the keyword set in the signature ("" = none)
-	Src     string   `json:"src"`   // lisp source evaluated by slip: the call form is the body of a lambda that is called three times (arguments A, A, B)
+	Src     string   `json:"src"`   // lisp source evaluated by slip: the call form is the body of a lambda that is called three times (arguments A, B, A)
 	Req     string   `json:"req"`   // model request for the arguments A
 	ReqB    string   `json:"req_b"` // model request for the arguments B (same keywords, other sequences)
 	Call    string   `json:"call"`  // the call form itself (body of the lambda), for messages
@@ -711,12 +711,20 @@ type c14Case struct {
 	Nontriv bool     `json:"nontrivial"`
 }
 
+// c14KwEnt: one keyword argument of the call under construction
+type c14KwEnt struct {
+	name string // keyword name without the colon
+	ref  string // how its value is written in the call form: a literal or a parameter of the enclosing lambda
+	a, b string // value expressions for the arguments A and B (a literal: the same)
+	fidx int    // index of its model field in fields (-1: none)
+}
+
 // c14Builder assembles source and request for one call
 type c14Builder struct {
 	entry   string // model entry when it differs from the lisp function (nunion -> union)
 	fn      string
 	pos     []string // positional lisp arguments
-	kwsrc   []string // keyword lisp text, in order
+	kws     []c14KwEnt
 	fields  []string // model fields ({k} stands for the k-th sequence parameter)
 	keys    []string
 	fieldsB map[int]string      // fields whose value differs for the arguments B (index into fields)
@@ -725,6 +733,10 @@ type c14Builder struct {
 	vary    func(c14Seq) c14Seq // draws the variant B of a sequence parameter
 	post    func(c14Seq) c14Seq // invariant the function needs of its sequences (merge: sorted)
 	traced  bool                // the function argument records its calls: each evaluation answers (result calls)
+	// spread: the call is written (apply 'fn positional… kwlist) with the keyword arguments in a list that
+	// is a parameter; drop says for each keyword whether the list of the arguments A (1) or B (2) lacks it
+	spread bool
+	drop   func(name string) int
 }
 
 // seq registers a sequence parameter: the call form refers to it as a variable of the enclosing lambda
@@ -752,15 +764,17 @@ func (b *c14Builder) arg(lisp string, field string) {
 }
 
 func (b *c14Builder) kw(name, lisp, field string) {
-	b.kwsrc = append(b.kwsrc, ":"+name+" "+lisp)
+	fidx := -1
 	if field != "" {
 		b.fields = append(b.fields, field)
+		fidx = len(b.fields) - 1
 	}
+	b.kws = append(b.kws, c14KwEnt{name: name, ref: lisp, a: lisp, b: lisp, fidx: fidx})
 	b.keys = append(b.keys, name)
 }
 
-// scalar registers a scalar parameter of the enclosing lambda (a keyword value, the item) whose value
-// is lispA in the first two evaluations and lispB in the third; returns the variable name
+// scalar registers a scalar parameter of the enclosing lambda (a keyword value, the item, a function)
+// whose value is lispA in the first and third evaluation and lispB in the second; returns the variable name
 func (b *c14Builder) scalar(lispA, fieldA, lispB, fieldB string) string {
 	b.scal = append(b.scal, [2]string{lispA, lispB})
 	if fieldA != "" || fieldB != "" {
@@ -777,12 +791,17 @@ func (b *c14Builder) scalar(lispA, fieldA, lispB, fieldB string) string {
 
 // kwVar: a keyword whose value is a scalar parameter (A and B values of the same boundary class)
 func (b *c14Builder) kwVar(name, token, lispA, fieldA, lispB, fieldB string) {
+	n := len(b.fields)
 	v := b.scalar(lispA, fieldA, lispB, fieldB)
-	b.kwsrc = append(b.kwsrc, ":"+name+" "+v)
+	fidx := -1
+	if len(b.fields) > n {
+		fidx = n
+	}
+	b.kws = append(b.kws, c14KwEnt{name: name, ref: v, a: lispA, b: lispB, fidx: fidx})
 	b.keys = append(b.keys, token)
 }
 
-// argVar: a positional scalar argument (item, start of subseq …) as a parameter
+// argVar: a positional scalar argument (item, start of subseq, a function) as a parameter
 func (b *c14Builder) argVar(lispA, fieldA, lispB, fieldB string) {
 	b.pos = append(b.pos, b.scalar(lispA, fieldA, lispB, fieldB))
 }
@@ -794,9 +813,37 @@ func (b *c14Builder) kwTok(name, token, lisp, field string) {
 }
 
 func (b *c14Builder) done(kind, want, check string, sweep bool) c14Case {
+	var kwsrc []string
+	for _, k := range b.kws {
+		kwsrc = append(kwsrc, ":"+k.name+" "+k.ref)
+	}
+	call := "(" + b.fn + " " + strings.Join(append(append([]string{}, b.pos...), kwsrc...), " ") + ")"
+	// the keyword arguments as one list handed to apply; some keywords are absent from the list of A or of B
+	dropA, dropB := map[int]bool{}, map[int]bool{}
+	var plistA, plistB []string
+	spread := b.spread && len(b.kws) > 0 && !strings.Contains(call, "§K§")
+	if spread {
+		for _, k := range b.kws {
+			d := 0
+			if b.drop != nil {
+				d = b.drop(k.name)
+			}
+			if d == 1 {
+				dropA[k.fidx] = true
+			} else {
+				plistA = append(plistA, ":"+k.name+" "+k.a)
+			}
+			if d == 2 {
+				dropB[k.fidx] = true
+			} else {
+				plistB = append(plistB, ":"+k.name+" "+k.b)
+			}
+		}
+		call = "(apply '" + b.fn + " " + strings.Join(append(append([]string{}, b.pos...), "kwp"), " ") + ")"
+		b.keys = append(b.keys, "@spread")
+	}
 	keys := append([]string{}, b.keys...)
 	sort.Strings(keys)
-	call := "(" + b.fn + " " + strings.Join(append(append([]string{}, b.pos...), b.kwsrc...), " ") + ")"
 	entry := b.fn
 	if b.entry != "" {
 		entry = b.entry
@@ -807,10 +854,10 @@ func (b *c14Builder) done(kind, want, check string, sweep bool) c14Case {
 		if v, ok := b.fieldsB[i]; ok {
 			fbv = v
 		}
-		if fld != "" {
+		if fld != "" && !dropA[i] {
 			fa = append(fa, fld)
 		}
-		if fbv != "" {
+		if fbv != "" && !dropB[i] {
 			fb = append(fb, fbv)
 		}
 	}
@@ -839,23 +886,29 @@ func (b *c14Builder) done(kind, want, check string, sweep bool) c14Case {
 		argsB = append(argsB, sc[1])
 		pass += fmt.Sprintf(" k%d", i+1)
 	}
+	if spread {
+		params = append(params, "kwp")
+		argsA = append(argsA, "(list "+strings.Join(plistA, " ")+")")
+		argsB = append(argsB, "(list "+strings.Join(plistB, " ")+")")
+	}
 	// a user function that re-enters the form hands the scalar parameters on unchanged
 	call = strings.ReplaceAll(call, "§K§", pass)
 	ca := "(funcall f " + strings.Join(argsA, " ") + ")"
 	cb := "(funcall f " + strings.Join(argsB, " ") + ")"
-	// the call form is compiled once (body of the lambda) and evaluated three times: twice with the
-	// same arguments, once with other sequences and other keyword values; `f` is visible in the body so that user functions
-	// can re-enter the very same form
-	src := "(let ((f nil)) (setq f (lambda (" + strings.Join(params, " ") + ") " + call + ")) (list " + ca + " " + ca + " " + cb + "))"
+	// the call form is compiled once (body of the lambda) and evaluated three times: with the arguments A,
+	// then with B (other sequences, other keyword values, other :key / :test / predicate functions — all
+	// of them parameters of the lambda), then with A again; `f` is visible in the body so that user
+	// functions can re-enter the very same form
+	src := "(let ((f nil)) (setq f (lambda (" + strings.Join(params, " ") + ") " + call + ")) (list " + ca + " " + cb + " " + ca + "))"
 	if b.traced {
 		// every evaluation starts with an empty log and answers (result calls-in-order)
-		src = "(let ((f nil) (log nil)) (setq f (lambda (" + strings.Join(params, " ") + ") (setq log nil) (let ((r " + call + ")) (list r (reverse log))))) (list " + ca + " " + ca + " " + cb + "))"
+		src = "(let ((f nil) (log nil)) (setq f (lambda (" + strings.Join(params, " ") + ") (setq log nil) (let ((r " + call + ")) (list r (reverse log))))) (list " + ca + " " + cb + " " + ca + "))"
 		want += "+trace"
 	}
 	if kind == "fpvector" {
 		kind = "vector+fp"
 	}
-	return c14Case{Fn: b.fn, Kind: kind, Keys: keys, Src: src, Call: call + " with " + strings.Join(argsA, " "), Req: reqA, ReqB: reqB, Want: want, Check: check, Sweep: sweep}
+	return c14Case{Fn: b.fn, Kind: kind, Keys: keys, Src: src, Call: call + " with " + strings.Join(argsA, " ") + " / " + strings.Join(argsB, " "), Req: reqA, ReqB: reqB, Want: want, Check: check, Sweep: sweep}
 }
 
 // chooser: how keyword values and operands are picked. The sweep enumerates (deterministic product),
@@ -1094,6 +1147,31 @@ func c14BoundsV(b *c14Builder, p c14Pick, use []string, startName, endName strin
 // keywords `use`. Returns ok=false when the combination does not exist (e.g. :test on a -if).
 func c14Build(f c14Fun, kind string, t c14Type, seqLen int, use []string, p c14Pick, sweep bool, sweepSeqs bool) (c14Case, bool) {
 	b := &c14Builder{fn: f.name}
+	// B variant of a function-valued argument (:key, :test, predicate, order, mapped function): every one
+	// of them is a parameter of the enclosing lambda. The sweep varies one of them (the first that has an
+	// alternative), the composite generator each with probability 1/2.
+	variedFn := false
+	pickB := func(list []string, a string) string {
+		if len(list) < 2 {
+			return a
+		}
+		if sweep {
+			if variedFn {
+				return a
+			}
+			for i, x := range list {
+				if x == a {
+					variedFn = true
+					return list[(i+1)%len(list)]
+				}
+			}
+			return a
+		}
+		if p.n(2) == 0 {
+			return a
+		}
+		return list[p.n(len(list))]
+	}
 	mkSeq := func(n int) c14Seq {
 		if sweepSeqs {
 			return c14SweepSeq(t, kind, p)
@@ -1113,6 +1191,22 @@ func c14Build(f c14Fun, kind string, t c14Type, seqLen int, use []string, p c14P
 			otherKind = u[6:]
 		case u == "trace":
 			traced = true
+		case u == "spread":
+			// the keyword arguments travel in a list handed to apply; the bounding / count / direction
+			// keywords are absent from the list of one of the two argument sets
+			b.spread = true
+			b.drop = func(name string) int {
+				switch name {
+				case "start", "end", "start1", "end1", "start2", "end2":
+					if f.fam == "reduce" || f.fam == "fill" {
+						return 0 // emptiness of the range is an input class of its own there
+					}
+					return p.n(3)
+				case "count", "from-end":
+					return p.n(3)
+				}
+				return 0
+			}
 		default:
 			use2 = append(use2, u)
 		}
@@ -1205,14 +1299,35 @@ func c14Build(f c14Fun, kind string, t c14Type, seqLen int, use []string, p c14P
 		}
 		key = keys[1+p.n(len(keys)-1)]
 	}
+	// the key of the arguments B: another key function of the type with the same kind of values
+	keyBOf := func(key c14Key, all []c14Key) c14Key {
+		if key.wire == "" || self == "key" {
+			return key
+		}
+		var cands []string
+		for _, k2 := range all[1:] {
+			if k2.to == key.to {
+				cands = append(cands, k2.wire)
+			}
+		}
+		w := pickB(cands, key.wire)
+		for _, k2 := range all {
+			if k2.wire == w {
+				return k2
+			}
+		}
+		return key
+	}
+	keyB := keyBOf(key, keys)
 	image := c14Image(t, key)
+	imageB := c14Image(t, keyB)
 	addKey := func() {
 		if self == "key" {
 			b.kwTok("key", "key@self", selfLambda(""), "self=key")
 			return
 		}
 		if key.wire != "" {
-			b.kw("key", c14FnLisp(key.wire), "key="+key.wire)
+			b.kwVar("key", "key", c14FnLisp(key.wire), "key="+key.wire, c14FnLisp(keyB.wire), "key="+keyB.wire)
 		}
 	}
 	addTest := func(equivOnly bool) bool {
@@ -1228,11 +1343,12 @@ func c14Build(f c14Fun, kind string, t c14Type, seqLen int, use []string, p c14P
 			if c14Has(use, name) {
 				ts := c14Tests(key.to, equivOnly)
 				tw := ts[p.n(len(ts))]
+				tb := pickB(ts, tw)
 				lname := "test"
 				if name == "testnot" {
 					lname = "test-not"
 				}
-				b.kw(lname, c14FnLisp(tw), name+"="+tw)
+				b.kwVar(lname, lname, c14FnLisp(tw), name+"="+tw, c14FnLisp(tb), name+"="+tb)
 			}
 		}
 		return true
@@ -1269,7 +1385,9 @@ func c14Build(f c14Fun, kind string, t c14Type, seqLen int, use []string, p c14P
 			item := image[p.n(len(image))]
 			itemB := item
 			if !sweep {
-				itemB = image[p.n(len(image))]
+				itemB = imageB[p.n(len(imageB))]
+			} else if keyB.wire != key.wire {
+				itemB = imageB[0]
 			}
 			b.argVar(item.lisp(), "item="+item.wire(), itemB.lisp(), "item="+itemB.wire())
 		} else if self == "pred" {
@@ -1280,7 +1398,8 @@ func c14Build(f c14Fun, kind string, t c14Type, seqLen int, use []string, p c14P
 		} else {
 			ps := c14Preds(key.to, image)
 			pr := ps[p.n(len(ps))]
-			b.arg(pr[1], "pred="+pr[0])
+			prB := c14PredB(ps, pr, pickB)
+			b.argVar(pr[1], "pred="+pr[0], prB[1], "pred="+prB[0])
 		}
 		b.seq("seq", s)
 		addKey()
@@ -1349,6 +1468,7 @@ func c14Build(f c14Fun, kind string, t c14Type, seqLen int, use []string, p c14P
 				}
 				key = pkeys[1+p.n(len(pkeys)-1)]
 			}
+			keyB = keyBOf(key, pkeys)
 			tgtImage = c14Image(proj, key)
 		}
 		if f.mode == "item" {
@@ -1362,7 +1482,8 @@ func c14Build(f c14Fun, kind string, t c14Type, seqLen int, use []string, p c14P
 		} else {
 			ps := c14Preds(key.to, tgtImage)
 			pr := ps[p.n(len(ps))]
-			b.arg(pr[1], "pred="+pr[0])
+			prB := c14PredB(ps, pr, pickB)
+			b.argVar(pr[1], "pred="+pr[0], prB[1], "pred="+prB[0])
 		}
 		b.seq("seq", s)
 		addKey()
@@ -1468,8 +1589,9 @@ func c14Build(f c14Fun, kind string, t c14Type, seqLen int, use []string, p c14P
 		}
 		s := mkSeq(seqLen)
 		ord := ords[p.n(len(ords))]
+		ordB := pickB(ords, ord)
 		b.seq("seq", s)
-		b.arg(c14FnLisp(ord), "pred="+ord)
+		b.argVar(c14FnLisp(ord), "pred="+ord, c14FnLisp(ordB), "pred="+ordB)
 		addKey()
 		check := ""
 		if f.name == "sort" {
@@ -1482,23 +1604,27 @@ func c14Build(f c14Fun, kind string, t c14Type, seqLen int, use []string, p c14P
 			return c14Case{}, false
 		}
 		ord := ords[p.n(len(ords))]
+		ordB := pickB(ords, ord)
 		// both inputs sorted by the predicate on the key (the language requires it)
-		less := func(a, c c14Obj) bool {
-			ka, kc := key.f(a), key.f(c)
-			switch ord {
-			case ">":
-				return ka.i > kc.i
-			case "seqshorter":
-				return len(ka.listElems()) < len(kc.listElems())
+		sortedBy := func(ord string, key c14Key) func(c14Seq) c14Seq {
+			less := func(a, c c14Obj) bool {
+				ka, kc := key.f(a), key.f(c)
+				switch ord {
+				case ">":
+					return ka.i > kc.i
+				case "seqshorter":
+					return len(ka.listElems()) < len(kc.listElems())
+				}
+				return ka.i < kc.i
 			}
-			return ka.i < kc.i
+			return func(s c14Seq) c14Seq {
+				s.elems = append([]c14Obj{}, s.elems...)
+				sort.SliceStable(s.elems, func(i, j int) bool { return less(s.elems[i], s.elems[j]) })
+				return s
+			}
 		}
-		sorted := func(s c14Seq) c14Seq {
-			s.elems = append([]c14Obj{}, s.elems...)
-			sort.SliceStable(s.elems, func(i, j int) bool { return less(s.elems[i], s.elems[j]) })
-			return s
-		}
-		b.post = sorted
+		sorted := sortedBy(ord, key)
+		b.post = sortedBy(ordB, keyB)
 		s1, s2 := sorted(mkSeq(seqLen)), sorted(mkSeq(seqLen))
 		if !sweepSeqs {
 			s2 = sorted(c14RandomSeq(p, t, kind, p.n(6)))
@@ -1507,7 +1633,7 @@ func c14Build(f c14Fun, kind string, t c14Type, seqLen int, use []string, p c14P
 		b.arg("'"+rt, "rtype="+rt)
 		b.seq("seq", s1)
 		b.seq("seq2", s2)
-		b.arg(c14FnLisp(ord), "pred="+ord)
+		b.argVar(c14FnLisp(ord), "pred="+ord, c14FnLisp(ordB), "pred="+ordB)
 		addKey()
 		return b.done(kind, "seq", "", sweep), true
 	case "set":
@@ -1536,6 +1662,7 @@ func c14Build(f c14Fun, kind string, t c14Type, seqLen int, use []string, p c14P
 	case "quant", "mapcar", "map":
 		nseq := 1 + p.n(2)
 		fnw := ""
+		var fnCands []string // the functions the position can take (for the variant B)
 		var seqs []c14Seq
 		tt := t
 		if self == "fn" {
@@ -1550,65 +1677,66 @@ func c14Build(f c14Fun, kind string, t c14Type, seqLen int, use []string, p c14P
 			switch t.name {
 			case "int":
 				if nseq == 2 {
-					fnw = []string{"+", "-", "<", "=", "list", "cons", "max"}[p.n(7)]
+					fnCands = []string{"+", "-", "<", "=", "list", "cons", "max"}
 				} else {
-					fnw = []string{"1+", "neg", "evenp", "oddp", "list", "plusp"}[p.n(6)]
+					fnCands = []string{"1+", "neg", "evenp", "oddp", "list", "plusp"}
 				}
 			case "char":
 				if nseq == 2 {
-					fnw = []string{"char=", "char<", "list", "cons"}[p.n(4)]
+					fnCands = []string{"char=", "char<", "list", "cons"}
 				} else {
-					fnw = []string{"upcase", "char-code", "list"}[p.n(3)]
+					fnCands = []string{"upcase", "char-code", "list"}
 				}
 			case "uchar": // eq on characters is not defined by the language: not used
 				if nseq == 2 {
-					fnw = []string{"char=", "char<", "list", "cons", "eql"}[p.n(5)]
+					fnCands = []string{"char=", "char<", "list", "cons", "eql"}
 				} else {
-					fnw = []string{"char-code", "list"}[p.n(2)]
+					fnCands = []string{"char-code", "list"}
 				}
 			case "oct":
 				if nseq == 2 {
-					fnw = []string{"+", "<", "=", "list", "cons"}[p.n(5)]
+					fnCands = []string{"+", "<", "=", "list", "cons"}
 				} else {
-					fnw = []string{"1+", "evenp", "list", "plusp"}[p.n(4)]
+					fnCands = []string{"1+", "evenp", "list", "plusp"}
 				}
 			case "pair", "ipair":
 				if nseq == 2 {
-					fnw = []string{"list", "cons", "equal"}[p.n(3)]
+					fnCands = []string{"list", "cons", "equal"}
 				} else {
-					fnw = []string{"car", "cdr", "consp", "list"}[p.n(4)]
+					fnCands = []string{"car", "cdr", "consp", "list"}
 				}
 			case "lst":
 				if nseq == 2 {
-					fnw = []string{"seqsubsetp", "seqsearch", "seqshorter", "equal", "list"}[p.n(5)]
+					fnCands = []string{"seqsubsetp", "seqsearch", "seqshorter", "equal", "list"}
 				} else {
-					fnw = []string{"seqlength", "seqreverse", "seqcount:y61", "seqfind:y61", "seqdedup"}[p.n(5)]
+					fnCands = []string{"seqlength", "seqreverse", "seqcount:y61", "seqfind:y61", "seqdedup"}
 				}
 			case "ilst":
 				if nseq == 2 {
-					fnw = []string{"seqsubsetp", "seqshorter", "equal"}[p.n(3)]
+					fnCands = []string{"seqsubsetp", "seqshorter", "equal"}
 				} else {
-					fnw = []string{"seqsum", "seqlength", "seqreverse"}[p.n(3)]
+					fnCands = []string{"seqsum", "seqlength", "seqreverse"}
 				}
 			default:
 				if nseq == 2 {
-					fnw = []string{"list", "cons", "eq", "equal"}[p.n(4)]
+					fnCands = []string{"list", "cons", "eq", "equal"}
 				} else {
-					fnw = []string{"list", "null"}[p.n(2)]
+					fnCands = []string{"list", "null"}
 				}
 			}
 		} else {
-			ps := c14Preds(t.name, t.alpha)
-			fnw = ps[p.n(len(ps))][0]
-		}
-		fnl := c14FnLisp(fnw)
-		if strings.HasPrefix(fnw, "eqto:") {
-			for _, o := range t.alpha {
-				if w, l := c14EqTo(o); w == fnw {
-					fnl = l
-				}
+			for _, pr := range c14Preds(t.name, t.alpha) {
+				fnCands = append(fnCands, pr[0])
 			}
 		}
+		if len(fnCands) > 0 {
+			fnw = fnCands[p.n(len(fnCands))]
+		}
+		fnwB := fnw
+		if self != "fn" {
+			fnwB = pickB(fnCands, fnw)
+		}
+		fnl, fnlB := c14FnLisp(fnw), c14FnLisp(fnwB)
 		for i := 0; i < nseq; i++ {
 			k := kind
 			if i > 0 && f.fam != "mapcar" && !sweep && p.n(2) == 0 {
@@ -1641,7 +1769,7 @@ func c14Build(f c14Fun, kind string, t c14Type, seqLen int, use []string, p c14P
 		if f.fam == "map" {
 			// result type: any kind the values fit in
 			rts := []string{"list", "vector", "nil"}
-			if fnw == "upcase" {
+			if fnw == "upcase" && fnwB == "upcase" {
 				rts = append(rts, "string")
 			}
 			if self == "fn" {
@@ -1666,11 +1794,12 @@ func c14Build(f c14Fun, kind string, t c14Type, seqLen int, use []string, p c14P
 			b.keys = append(b.keys, "fn@self")
 		} else if traced {
 			// the function records the arguments of each of its calls (a side effect the form hands back)
-			b.arg(c14TraceLambda(fnl, nseq), "fn="+fnw+" trace=t")
+			v := b.scalar(fnl, "fn="+fnw, fnlB, "fn="+fnwB)
+			b.arg(c14TraceLambda(v, nseq), "trace=t")
 			b.keys = append(b.keys, "fn@traced")
 			b.traced = true
 		} else {
-			b.arg(fnl, "fn="+fnw)
+			b.argVar(fnl, "fn="+fnw, fnlB, "fn="+fnwB)
 		}
 		b.pos = append(b.pos, lisps...)
 		b.fields = append(b.fields, "seqs="+strings.Join(wires, ";"))
@@ -1685,6 +1814,7 @@ func c14Build(f c14Fun, kind string, t c14Type, seqLen int, use []string, p c14P
 			fns = []string{"list", "cons"}
 		}
 		fnw := fns[p.n(len(fns))]
+		fnwB := pickB(fns, fnw)
 		b.arg("", "")
 		b.seq("seq", s)
 		addKey()
@@ -1694,18 +1824,23 @@ func c14Build(f c14Fun, kind string, t c14Type, seqLen int, use []string, p c14P
 			iv := image[p.n(len(image))]
 			b.kw("initial-value", iv.lisp(), "init="+iv.wire())
 			b.keys[len(b.keys)-1] = "init"
-		} else if en-st == 0 && fnw != "+" {
+		} else if en-st == 0 {
 			// an empty subsequence without :initial-value calls the function with no arguments:
 			// only functions with a zero-argument value are in the quantifier
-			fnw = "list"
+			if fnw != "+" {
+				fnw = "list"
+			}
+			if fnwB != "+" {
+				fnwB = "list"
+			}
 		}
-		b.pos[0] = c14FnLisp(fnw)
-		b.fields = append(b.fields, "fn="+fnw)
+		fv := b.scalar(c14FnLisp(fnw), "fn="+fnw, c14FnLisp(fnwB), "fn="+fnwB)
+		b.pos[0] = fv
 		if traced {
 			if en-st == 0 && !c14Has(use, "init") {
 				return c14Case{}, false // the zero-argument call: its own input class
 			}
-			b.pos[0] = c14TraceLambda(c14FnLisp(fnw), 2)
+			b.pos[0] = c14TraceLambda(fv, 2)
 			b.fields = append(b.fields, "trace=t")
 			b.keys = append(b.keys, "fn@traced")
 			b.traced = true
@@ -1763,6 +1898,21 @@ func c14Build(f c14Fun, kind string, t c14Type, seqLen int, use []string, p c14P
 		return b.done(kind, "seq", "", sweep), true
 	}
 	return c14Case{}, false
+}
+
+// c14PredB: the predicate of the arguments B, from the same candidates
+func c14PredB(ps [][2]string, pr [2]string, pickB func([]string, string) string) [2]string {
+	var ws []string
+	for _, x := range ps {
+		ws = append(ws, x[0])
+	}
+	w := pickB(ws, pr[0])
+	for _, x := range ps {
+		if x[0] == w {
+			return x
+		}
+	}
+	return pr
 }
 
 // c14TraceLambda wraps a function of n arguments so that it records the arguments of every call in
@@ -2002,7 +2152,7 @@ func c14AvoidClassExtra(listed []c14Listed, cs c14Case) bool {
 
 type c14Obs struct {
 	ok    bool
-	wires []string // the results of the three evaluations of the call form (arguments A, A, B)
+	wires []string // the results of the three evaluations of the call form (arguments A, B, A)
 	wire  string   // the one under comparison
 	class string
 	msg   string
@@ -2036,7 +2186,7 @@ func (o c14Obs) String() string {
 	return "err " + o.class + " (" + o.msg + ")"
 }
 
-// c14AspectAll compares the three evaluations (arguments A, A, B) with the model's answers for A
+// c14AspectAll compares the three evaluations (arguments A, B, A) with the model's answers for A
 // and B. The aspect of the first disagreeing call is reported; a disagreement that only shows from
 // the second evaluation on (state kept between calls, re-entrancy) is marked @call<n>.
 func c14AspectAll(cs c14Case, obs c14Obs, modelA, modelB string, checks [3]string) (string, int) {
@@ -2051,12 +2201,12 @@ func c14AspectAll(cs c14Case, obs c14Obs, modelA, modelB string, checks [3]strin
 	}
 	for j := 0; j < 3; j++ {
 		m := modelA
-		if j == 2 {
+		if j == 1 {
 			m = modelB
 		}
 		a := c14Aspect(cs, c14Obs{ok: true, wire: obs.wires[j]}, m, checks[j])
 		if a != "" {
-			if j == 1 {
+			if j == 2 {
 				// the same arguments gave the right answer at the first evaluation: the form keeps state
 				a += "@reeval"
 			}
@@ -2126,7 +2276,7 @@ func c14Checks(c *lib.Ctx, cs c14Case, obs c14Obs, modelA, modelB string) [3]str
 	var idx []int
 	for j, w := range obs.wires {
 		req, m := cs.Req, modelA
-		if j == 2 {
+		if j == 1 {
 			req, m = cs.ReqB, modelB
 		}
 		if strings.HasPrefix(w, "?") || !strings.HasPrefix(m, "ok ") {
@@ -2178,7 +2328,7 @@ func c14Replay(c *lib.Ctx) {
 	obs := c14Impl(slip.NewScope(), cs)
 	models := c.Model([]string{cs.Req, cs.ReqB})
 	checks := c14Checks(c, cs, obs, models[0], models[1])
-	fmt.Printf("replay %s\n  (the call form is compiled once and evaluated three times: arguments A, A, B)\n  source        : %s\n  implementation: %s\n", cs.Call, cs.Src, obs)
+	fmt.Printf("replay %s\n  (the call form is compiled once and evaluated three times: arguments A, B, A)\n  source        : %s\n  implementation: %s\n", cs.Call, cs.Src, obs)
 	if obs.ok {
 		for j, w := range obs.wires {
 			fmt.Printf("    call %d = %s\n", j+1, c14Pretty("ok "+w))
@@ -2189,7 +2339,7 @@ func c14Replay(c *lib.Ctx) {
 		fmt.Printf("  relation %s on the implementation's results: %v\n", cs.Check, checks)
 	}
 	if a, _ := c14AspectAll(cs, obs, models[0], models[1], checks); a != "" {
-		c.Report(c14Signature(cs, a), false, map[string]any{"input": cs.Call, "observed": obs.String(), "expected": models[0] + " | " + models[0] + " | " + models[1]})
+		c.Report(c14Signature(cs, a), false, map[string]any{"input": cs.Call, "observed": obs.String(), "expected": models[0] + " | " + models[1] + " | " + models[0]})
 	}
 }
 
@@ -2235,6 +2385,16 @@ func runC14(c *lib.Ctx) {
 						subsets = append(subsets, []string{"trace", a})
 					}
 				}
+				// the keyword arguments in a list handed to apply, a keyword absent from the list of one of
+				// the evaluations (absent -> present -> absent and the converse)
+				if (t.name == "sym" || t.name == "int" || t.name == "char" || t.name == "oct") && kind != "fpvector" {
+					for _, a := range f.kws {
+						subsets = append(subsets, []string{"spread", a})
+					}
+					if c14Has(f.kws, "start") && c14Has(f.kws, "end") {
+						subsets = append(subsets, []string{"spread", "start", "end"})
+					}
+				}
 				// the two sequences of search / mismatch / replace are of different kinds
 				if f.fam == "search" || f.fam == "mismatch" || f.fam == "replace" {
 					for _, ok := range c14Kinds4 {
@@ -2251,7 +2411,7 @@ func runC14(c *lib.Ctx) {
 					// pairs of keywords: on the plain element types only (symbols, integers;
 					// characters on strings, octets; pair types when :key is one of the two); the other
 					// element types (and vectors with a fill pointer) are swept with at most one keyword
-					if len(use) == 2 && !strings.Contains(use[0], ":") && use[0] != "trace" {
+					if len(use) == 2 && !strings.Contains(use[0], ":") && use[0] != "trace" && use[0] != "spread" {
 						plain := (t.name == "sym" || t.name == "int" || t.name == "char" || t.name == "oct") && kind != "fpvector"
 						keyed := c14Has(use, "key") && (t.name == "pair" || t.name == "ipair")
 						if !plain && !keyed {
@@ -2263,6 +2423,8 @@ func runC14(c *lib.Ctx) {
 					switch {
 					case len(use) > 0 && strings.HasPrefix(use[0], "other:"):
 						limit = 40
+					case len(use) > 0 && use[0] == "spread":
+						limit = 60
 					case kind == "fpvector":
 						limit = 60
 					case kind == "octets" && len(use) == 2:
@@ -2382,6 +2544,9 @@ func runC14(c *lib.Ctx) {
 		if (f.fam == "quant" || f.fam == "map" || f.fam == "mapcar" || f.fam == "reduce") && c.Rng.Chance(35) {
 			use = append(use, "trace")
 		}
+		if len(use) > 0 && c.Rng.Chance(25) {
+			use = append(use, "spread")
+		}
 		if (f.fam == "search" || f.fam == "mismatch" || f.fam == "replace") && kind != "fpvector" && c.Rng.Chance(35) {
 			use = append(use, "other:"+c14Kinds4[c.Rng.Intn(len(c14Kinds4))])
 		}
@@ -2431,7 +2596,7 @@ func runC14(c *lib.Ctx) {
 	nExh := len(cases) - nSweep - nComposite
 
 	// --- run: the model answers for the arguments A and B of every case; the implementation evaluates
-	//     the call form three times (A, A, B) inside one lambda
+	//     the call form three times (A, B, A) inside one lambda
 	reqs := make([]string, 0, 2*len(cases))
 	for _, cs := range cases {
 		reqs = append(reqs, cs.Req, cs.ReqB)
@@ -2449,7 +2614,7 @@ func runC14(c *lib.Ctx) {
 		}
 		for j, w := range obs[i].wires {
 			req, m := cs.Req, replies[2*i]
-			if j == 2 {
+			if j == 1 {
 				req, m = cs.ReqB, replies[2*i+1]
 			}
 			if strings.HasPrefix(w, "?") || !strings.HasPrefix(m, "ok ") {
@@ -2487,10 +2652,10 @@ func runC14(c *lib.Ctx) {
 			continue
 		}
 		m := mA
-		if j == 2 {
+		if j == 1 {
 			m = mB
 		}
-		expected := mA + " | " + mA + " | " + mB
+		expected := mA + " | " + mB + " | " + mA
 		from := "model:seq." + c14Entry(cs.Fn)
 		if cs.Check != "" {
 			expected = "any result accepted by " + cs.Check + ", e.g. " + m
@@ -2518,7 +2683,7 @@ func runC14(c *lib.Ctx) {
 	c.Ev.Coverage["composite_cases"] = nComposite
 	c.Ev.Coverage["exhaustive_cases"] = nExh
 	c.Ev.Coverage["relation_checks"] = len(checkReqs)
-	c.Ev.Coverage["rule"] = "case = one call (function, sequence(s), keyword arguments); distinct by source text; non-trivial = at least 2 keywords present or first sequence of length >= 3; sweep = function x sequence kind x element type x keyword subsets of size <= 2 over 5 fixed sequences and boundary values (seed independent); composite = random call with any keyword subset, lengths 0..8 over 4-symbol alphabets; thorough adds all sequences of length <= 4 for the scan families"
+	c.Ev.Coverage["rule"] = "case = one call form (function, sequence(s), keyword arguments) compiled once as the body of a lambda and evaluated three times (arguments A, B, A: B = other sequences, other in-range keyword values, other :key/:test/predicate/order functions, all passed as parameters); distinct by source text; non-trivial = at least 2 keywords present or first sequence of length >= 3; sweep (seed independent) = function x sequence kind (list, vector, string, octets, vector with fill pointer, two sequences of different kinds) x element type (symbols, integers, characters incl. multi-byte, octets, pairs, lists) x keyword subsets of size <= 2 over 5 fixed sequences and boundary values, plus: keyword list handed to apply with a keyword absent from one evaluation, function argument recording its calls (every some notany notevery map mapcar reduce), user functions re-entering the form, long sequences for the sort family; composite = random call with any keyword subset, lengths 0..8 over 4-symbol alphabets (sort family up to 48); thorough adds all sequences of length <= 4 for the scan families"
 }
 
 // c14Exhaustive: all sequences of length <= 4 over the alphabet for the scan families.
